@@ -58,8 +58,17 @@ fn decode(h: &MsgHeader) -> Result<nexrad_decode::messages::message_header::Mess
     // chained reader, a BufReader refill inside the header): same fields, by the same offsets
     let key = crate::rng::fnv(&b);
     if key % 4 == 0 {
-        let mut rd = mon::DribbleReader::new(std::io::Cursor::new(&b[..]), key);
-        return decode_message_header(&mut rd).map_err(|e| format!("{e:?} (through a reader that returns short reads)"));
+        // ... and twice in a row from one such reader: the decoder takes its 28 bytes and no more,
+        // so the header that follows is read from its own offsets too
+        let mut two = b.to_vec();
+        two.extend_from_slice(&b);
+        let mut rd = mon::DribbleReader::new(std::io::Cursor::new(&two[..]), key);
+        let first = decode_message_header(&mut rd).map_err(|e| format!("{e:?} (through a reader that returns short reads)"))?;
+        let second = decode_message_header(&mut rd).map_err(|e| format!("{e:?} (second header from a reader that returns short reads)"))?;
+        if first != second {
+            return Err("the header that follows on the same short-read reader decodes differently (bytes beyond the 28 were consumed)".to_string());
+        }
+        return Ok(first);
     }
     decode_message_header(&mut &b[..]).map_err(|e| format!("{e:?}"))
 }
